@@ -89,11 +89,14 @@ def stepTxRing (t : TxRing) (pos : Nat) (lastW : Nat) (args : List String) : TxR
       (t', s!"{rs} {showTx2 t' ws 2}", if r = .pending ∧ t'.writerWaker then 2 else lastW)
     | none => (t, "bad-op", lastW)
   | _ =>
+    -- `flushb` / `shutdownb`: the same call polled by the second task (waker B)
+    let isPollB := args = ["flushb"] ∨ args = ["shutdownb"]
+    let args := if args = ["flushb"] then ["flush"] else if args = ["shutdownb"] then ["shutdown"] else args
     let (t', o) := stepTxRing1 t pos args
     -- re-render the wake counts with the attribution; writer-side polls by A register A
-    let isPollA := args.head? ∈ [some "write", some "writepos", some "flush", some "shutdown"]
-    let lastW' := if isPollA ∧ t'.writerWaker ∧ (o.startsWith "pending") then 1 else lastW
-    let who := if isPollA then 1 else lastW
+    let isPollA := ¬ isPollB ∧ args.head? ∈ [some "write", some "writepos", some "flush", some "shutdown"]
+    let lastW' := if (isPollA ∨ isPollB) ∧ t'.writerWaker ∧ (o.startsWith "pending") then (if isPollB then 2 else 1) else lastW
+    let who := if isPollA then 1 else if isPollB then 2 else lastW
     let o' := if who = 2 then (o.replace " ww=1 " " ww=0 wb=1 ").replace " ww=2 " " ww=0 wb=2 " else
       ((o.replace " ww=0 " " ww=0 wb=0 ").replace " ww=1 " " ww=1 wb=0 ").replace " ww=2 " " ww=2 wb=0 "
     let o'' := if who = 2 then o'.replace " ww=0 len" " ww=0 wb=0 len" else o'
